@@ -130,6 +130,9 @@ func runInput(id, src string, mode string, r *rand.Rand) obs {
 			jobs = append(jobs, job{hs.Cfg{Lang: syntax.LangBash, Keep: true, Recover: 1}, "Parse"}, job{hs.Cfg{Lang: syntax.LangZsh, Keep: true}, "StmtsSeq"})
 		}
 		jobs = append(jobs, job{hs.Cfg{Lang: syntax.LangBash, Keep: false}, "InteractiveSeq"})
+		if mode == "b" {
+			jobs = append(jobs, job{hs.Cfg{Lang: syntax.LangBash, Keep: true, StopAt: "$$"}, "Parse"}, job{hs.Cfg{Lang: syntax.LangZsh, Keep: false, StopAt: "#"}, "StmtsSeq"})
+		}
 		full = mode == "m" // all printer option sets for the operand matrix
 	} else if mode == "T" || mode == "t" {
 		for _, j := range truncJobs(mode == "T") {
@@ -302,6 +305,9 @@ func buildInputs(seed uint64, tier string, nGen int) []input {
 	}
 	if tier == "thorough" {
 		parts = 1
+	}
+	for i, s := range hs.Regress("c06") { // minimised regression inputs run first
+		ins = append(ins, input{id: fmt.Sprintf("regress:%d", i), src: s, full: true})
 	}
 	for i, s := range hs.Always() {
 		ins = append(ins, input{id: fmt.Sprintf("pinned:%d", i), src: s, full: true})
